@@ -65,6 +65,34 @@ def c16(tier):
     return 1 if (rc == 1 or rcs == 1) else 0
 
 
+def c17_client_part(tier, server_rc=0):
+    """Client side of C17 (frames glued to the 101 response; engine.dial.c17_client) combined with the exit code of the
+    server side: merges the coverage into evidence/C17.json (written by the server part), prints the VIOLATION lines
+    and returns the combined exit code.  Wiring (engine/props_upgrade.py):
+        def c17(tier):
+            from . import props_dial
+            return props_dial.c17_client_part(tier, upgrade.c17(tier))
+    """
+    import json, os
+    viol, cov = dial.c17_client(tier)
+    path = os.path.join(core.EVID, "C17.json")
+    try:
+        ev = json.load(open(path))
+        ev["coverage"]["client_part"] = cov
+        for k in ("states", "transitions", "traces_validated_against_impl", "evaluations", "distinct_nontrivial"):
+            if isinstance(cov.get(k), int) and isinstance(ev["coverage"].get(k), int):
+                ev["coverage"][k] += cov[k]
+        ev["violations"] = ev.get("violations", 0) + len(viol)
+        json.dump(ev, open(path, "w"), indent=1)
+    except (OSError, ValueError, KeyError):
+        pass
+    for v in viol:
+        print("VIOLATION property=C17 replay=%s" % v, flush=True)
+    if server_rc == 2:
+        return 2
+    return 1 if (viol or server_rc == 1) else 0
+
+
 def c18(tier):
     q = tier == "quick"
     cfg = "MC_C18_quick.cfg" if q else "MC_C18_thorough.cfg"
